@@ -1,79 +1,12 @@
 #![no_main]
 //! C09 (+C01, C02) byte-level target: bytes are decoded by hand into a history plan (the same Plan type the
-//! proptest generators produce) and run with the panic monitor, the conservation monitor and the UTXO monitor.
-use arbitrary::Unstructured;
+//! proptest generators produce) and run with the panic monitor, the UTXO monitor and the conservation monitor.
 use libfuzzer_sys::fuzz_target;
-use mv::evidence::Stats;
-use mv::plan::{CfgPlan, OutPlan, Plan, StakeCfg, Step, TxPlan};
-
-fn tx(u: &mut Unstructured) -> arbitrary::Result<TxPlan> {
-    let n_in = 1 + u.int_in_range(0..=2)? as usize;
-    let n_out = 1 + u.int_in_range(0..=3)? as usize;
-    Ok(TxPlan {
-        kind: u.arbitrary()?,
-        ins: (0..n_in).map(|_| u.arbitrary()).collect::<arbitrary::Result<Vec<u16>>>()?,
-        outs: (0..n_out)
-            .map(|_| Ok(OutPlan { denom: u.arbitrary()?, weight: u.arbitrary()?, dest: u.arbitrary()?, adata: u.arbitrary()? }))
-            .collect::<arbitrary::Result<Vec<_>>>()?,
-        fee: u.arbitrary()?,
-        data: u.arbitrary()?,
-        pool: u.arbitrary()?,
-        spell: u.arbitrary()?,
-        amount: u.arbitrary()?,
-        mutation: u.arbitrary()?,
-        mparam: u.arbitrary()?,
-    })
-}
-
-fn plan(u: &mut Unstructured) -> arbitrary::Result<Plan> {
-    let n_st = u.int_in_range(0..=2)? as usize;
-    let cfg = CfgPlan {
-        net: u.arbitrary()?,
-        denom: u.arbitrary()?,
-        val: u.arbitrary()?,
-        cov: u.arbitrary()?,
-        fee_pool: u.arbitrary()?,
-        fee_mult: u.arbitrary()?,
-        stakes: (0..n_st)
-            .map(|_| Ok(StakeCfg { key: u.arbitrary()?, start: u.arbitrary()?, len: u.arbitrary()?, syms: u.arbitrary()? }))
-            .collect::<arbitrary::Result<Vec<_>>>()?,
-    };
-    let mut steps = vec![];
-    while !u.is_empty() && steps.len() < 14 {
-        let s = match u.int_in_range(0..=9)? {
-            0..=5 => {
-                let n = 1 + u.int_in_range(0..=4)? as usize;
-                let txs = (0..n).map(|_| tx(u)).collect::<arbitrary::Result<Vec<_>>>()?;
-                Step::Batch(txs, if u.arbitrary()? { u.arbitrary()? } else { 0 })
-            }
-            6..=7 => Step::Seal(if u.arbitrary()? { Some((u.arbitrary()?, u.arbitrary()?)) } else { None }),
-            8 => Step::Restart,
-            _ => Step::Empty(u.int_in_range(0..=2)?),
-        };
-        steps.push(s);
-    }
-    Ok(Plan { cfg, steps })
-}
 
 fuzz_target!(|data: &[u8]| {
     static HOOK: std::sync::Once = std::sync::Once::new();
     HOOK.call_once(mv::util::install_panic_hook);
-    let mut u = Unstructured::new(data);
-    let p = match plan(&mut u) {
-        Ok(p) => p,
-        Err(_) => return,
-    };
-    let mut st = Stats::default();
-    let prof = mv::mon::c09::profile();
-    let r = mv::plan::run_plan(&p, &prof, &mut mv::mon::c09::C09::default(), &mut st, 250)
-        .and_then(|_| mv::plan::run_plan(&p, &prof, &mut mv::mon::c02::C02::default(), &mut st, 250))
-        .and_then(|_| mv::plan::run_plan(&p, &prof, &mut mv::mon::c01::C01::default(), &mut st, 250));
-    if let Err(v) = r {
-        // known findings are tolerated in campaigns (strict mode is the replay)
-        let known = mv::evidence::Known::load();
-        if ["C09", "C02", "C01"].iter().any(|id| known.matches(id, &v.signature).is_some()) {
-            return;
-        }
-        panic!("VIOLATION {} :: {} :: plan {}", v.signature, v.detail, serde_json::to_string(&p).unwrap_or_default());
+    if let Err(v) = mv::fuzzing::target_stf(data, false) {
+        panic!("VIOLATION C09/C02/C01 {} :: {}", v.signature, v.detail);
     }
 });
